@@ -179,7 +179,9 @@ func (ex *Exec) loopEntry(st *State, li *loopInfo) {
 		env := ex.loopEnv(st)
 		env.loopHeader = li.header
 		for i, inv := range li.spec.Invariants {
-			st.oblige(ex.loopName(li, inv, i, "entry"), "inv-entry", env.evalBool(inv.Expr), inv.Src)
+			if g, ok := ex.evalInv(env, li, inv); ok {
+				st.oblige(ex.loopName(li, inv, i, "entry"), "inv-entry", g, inv.Src)
+			}
 		}
 	}
 	pre := st.clone()
@@ -216,7 +218,9 @@ func (ex *Exec) loopEntry(st *State, li *loopInfo) {
 		env := ex.loopEnv(st)
 		env.loopHeader = li.header
 		for _, inv := range li.spec.Invariants {
-			st.assume(env.evalBool(inv.Expr))
+			if g, ok := ex.evalInv(env, li, inv); ok {
+				st.assume(g)
+			}
 		}
 		if ex.discover == nil {
 			ex.obligs = append(ex.obligs, Oblig{Name: ex.obName(fmt.Sprintf("cover.loop%d", li.ordinal)), Kind: "cover",
@@ -274,23 +278,29 @@ func (ex *Exec) loopBackEdge(st *State, li *loopInfo) {
 		if head == nil {
 			unsup("back edge without loop head snapshot")
 		}
-		// ghost updates over loop-head values
+		// ghost updates: evaluated in the state at the end of the body (its locals are visible; the ghost variables
+		// still have their loop-head values); athead(e) reads e in the loop-head state.
 		if len(li.spec.Ghosts) > 0 {
-			henv := ex.loopEnv(head)
-			henv.loopHeader = li.header
-			henv.sink = st
+			uenv := ex.loopEnv(st)
+			uenv.loopHeader = li.header
+			uenv.head = head
+			newVals := map[string]Value{}
 			for _, g := range li.spec.Ghosts {
 				if g.Update != nil {
-					st.ghost[g.Name] = henv.eval(g.Update).V
-				} else {
-					st.ghost[g.Name] = head.ghost[g.Name]
+					newVals[g.Name] = uenv.eval(g.Update).V
 				}
+			}
+			for k, v := range newVals {
+				st.ghost[k] = v
 			}
 		}
 		env := ex.loopEnv(st)
 		env.loopHeader = li.header
+		env.head = head
 		for i, inv := range li.spec.Invariants {
-			st.oblige(ex.loopName(li, inv, i, "preserved"), "inv-preserved", env.evalBool(inv.Expr), inv.Src)
+			if g, ok := ex.evalInv(env, li, inv); ok {
+				st.oblige(ex.loopName(li, inv, i, "preserved"), "inv-preserved", g, inv.Src)
+			}
 		}
 		if li.spec.Decreases != nil {
 			henv := ex.loopEnv(head)
@@ -339,4 +349,21 @@ func (env *Env) localByName(name string) (TV, bool) {
 	}
 	t := pick.Type().(*types.Pointer).Elem()
 	return TV{env.cur.locals[pick], t}, true
+}
+
+// evalInv evaluates a loop invariant clause. A clause that mentions a local variable the (changed) code no longer has
+// cannot be bound: it is dropped with a note, so that the function's other obligations decide (a refactoring that does
+// not need the clause still verifies; code whose proof needed it now fails a named obligation).
+func (ex *Exec) evalInv(env *Env, li *loopInfo, inv Clause) (g Term, ok bool) {
+	defer func() {
+		if r := recover(); r != nil {
+			if se, isSpec := r.(specErr); isSpec && strings.HasPrefix(se.msg, "unknown identifier") {
+				ex.note(fmt.Sprintf("loop %d invariant %q could not be bound (%s): clause dropped", li.ordinal, inv.Src, se.msg))
+				g, ok = tTrue, false
+				return
+			}
+			panic(r)
+		}
+	}()
+	return env.evalBool(inv.Expr), true
 }
